@@ -51,7 +51,7 @@ ASSUMPTIONS = [
 SHARDS = {'quick': 4, 'thorough': 16}
 REQUIRED_CLASSES = {'file-nontrivial': 1, 'passes>=2': 1, 'short-last-block': 1, 'blocks-differ': 1, 'channels==20': 1,
                     'channels==1': 1, 'up-log': 1, 'down-log': 1, 'word-unnormalised': 1, 'word-zero-fraction': 1,
-                    'word-negative': 1, 'sweep-words': 1, 'bundled-file': 1}
+                    'word-negative': 1, 'sweep-words': 1, 'bundled-file': 1, 'block-bytes>=4096': 1}
 
 O_VALUE = 'frame-value==ibm-reference'          # frame data decoder (gen_floats), in files and word by word
 O_B2F = 'bytes_to_float==ibm-reference'
@@ -410,7 +410,7 @@ def check_model(model, data, cc):
                 where, rng, ['%08x' % w for w in p['range_words']], want))
         # -- X axis ---------------------------------------------------------------------------
         if shapes[0][0] and len(shapes[0]) == 2:
-            xs = np.asarray(fa.channels[0].array, dtype=np.float64)[:, 0].tolist()
+            xs = np.asarray(fa.channels[0].array, dtype=np.float64)[:max(frames, 1), 0].tolist()
             for sig, detail in x_axis_devs(xs, *p['range_words'][:3]):
                 cc.dev('x-axis==start+-k*spacing', sig, '%s: %s' % (where, detail))
         seen_words.extend(p['range_words'])
@@ -449,6 +449,7 @@ def classify_model(model, cc):
         cc.cls('single-block', len(bf) == 1)
         cc.cls('one-frame-blocks', len(bf) >= 2 and set(bf) == {1})
         cc.cls('blocks>=10', len(bf) >= 10)
+        cc.cls('block-bytes>=4096', any(4 * n * f >= 4096 for f in bf))
         cc.cls('zero-frames-pass', frames == 0)
         cc.cls('frames>=100', frames >= 100)
         start, stop = ibm.ibm_fraction(p['range_words'][0]), ibm.ibm_fraction(p['range_words'][1])
